@@ -352,24 +352,24 @@ func runC18(c *Ctx) {
 			ok, path := MustPassEdges(fn, up, miss)
 			c.Check(key+"::insert-only-on-miss", up.Pos(), ok && len(miss) > 0, "the memo table is filled only on the miss edge of its own lookup (create exactly once); path: %s", PathString(fn, path))
 			// check-then-act is one critical section: no Unlock of a mutex held at
-		// the lookup lies on a path from the lookup to the insertion (two
-		// builders that both miss would each create their own function).
-		{
-			released := ""
-			for _, op := range LockOps(fn) {
-				if !op.Unlock || op.Deferred {
-					continue
+			// the lookup lies on a path from the lookup to the insertion (two
+			// builders that both miss would each create their own function).
+			{
+				released := ""
+				for _, op := range LockOps(fn) {
+					if !op.Unlock || op.Deferred {
+						continue
+					}
+					if held, _ := HeldAt(fn, lk, op.Path); !held {
+						continue
+					}
+					if ReachesFrom(fn, lk, op.Instr) && ReachesFrom(fn, op.Instr, up) {
+						released = op.Path
+					}
 				}
-				if held, _ := HeldAt(fn, lk, op.Path); !held {
-					continue
-				}
-				if ReachesFrom(fn, lk, op.Instr) && ReachesFrom(fn, op.Instr, up) {
-					released = op.Path
-				}
+				c.Check(key+"::lookup-and-insert-in-one-critical-section", up.Pos(), released == "", "the mutex held at the lookup (%s) is released before the insertion: two builders can both miss and both create the function, so it is no longer created exactly once", released)
 			}
-			c.Check(key+"::lookup-and-insert-in-one-critical-section", up.Pos(), released == "", "the mutex held at the lookup (%s) is released before the insertion: two builders can both miss and both create the function, so it is no longer created exactly once", released)
-		}
-		c.Check(key+"::same-key", up.Pos(), AddrKeyOfLoad(up.Key) == AddrKeyOfLoad(lk.Index) || up.Key == lk.Index, "the key inserted is the key that was looked up")
+			c.Check(key+"::same-key", up.Pos(), AddrKeyOfLoad(up.Key) == AddrKeyOfLoad(lk.Index) || up.Key == lk.Index, "the key inserted is the key that was looked up")
 			c.Check(key+"::inserts-created-function", up.Pos(), DerivesLocal(up.Value, isCreate), "the value inserted is the function just created")
 			// creation only on the miss edge
 			Instrs(fn, false, func(in ssa.Instruction) {
